@@ -1020,13 +1020,15 @@ def run_harness(ctx, exe, lines):
             break
         out[i + done] = ("CRASH", rc, err[-3000:])
         # state lines that must be replayed: last img, and the reader is gone (next group starts with its own mr)
-        last_img, last_sb = None, None
+        last_img, last_sb, last_va = None, None, None
         for l in lines[:i + done + 1]:
             if l.startswith(("img ", "imgz ")):
                 last_img, last_sb = l, None
             elif l.startswith("sb "):
                 last_sb = l
-        ctxlines = [x for x in (last_img, last_sb) if x]
+            elif l.startswith("valloc "):
+                last_va = l
+        ctxlines = [x for x in (last_va, last_img, last_sb) if x]
         i = i + done + 1
     return out
 
@@ -1198,6 +1200,8 @@ def routine_level(ctx, harness, stats):
                               "real code aborted (rc=%s) in %s on routine-level line %r; the model of the current code predicts no out-of-bounds access" % (rc, site, l[:200]), replay)
             if op in ("seek", "read"):
                 poisoned.add(owner[i])
+            if op in XOPS or op == "xload":
+                xpoisoned = True                   # the restarted harness has no xattr reader until the next `xnew`
             continue
         if got is None:
             continue
@@ -1861,6 +1865,72 @@ def codec_tamper_images(ctx, codec, comp_ids, stats):
     return out
 
 
+def width_images(ctx, stats):
+    """Tool level counterpart of the width-boundary lines (seeded C05-c2): a valid forged image whose xattr id table header /
+    superblock announces 2^28 + 1 ... descriptors / fragments (x16 no longer fits 32 bits, the low bits say "one block"), and
+    whose inodes carry an xattr / fragment index below the announced count but beyond the table a truncated product would
+    allocate.  `compact`: the file ends where it ended (the honest loader fails reading the locations); `sparse`: the location
+    array the count needs is there as zeroes (the honest loader succeeds, the lookup is refused by the meta data reader).
+    Also a file inode whose size needs 2^32 + 1 / 2^30 + 1 block words."""
+    out = []
+    fg = F.sample_tree(__import__("random").Random(7), 4096)
+    img0 = fg.build()
+    fld = {}
+    for off, w, name in fg.fields:
+        fld.setdefault(name, []).append((off, w))
+
+    def patch(b, name, val):
+        for off, w in fld.get(name, []):
+            b[off:off + w] = (val & ((1 << (8 * w)) - 1)).to_bytes(w, "little")
+
+    xino = sorted(n for n in fld if re.fullmatch(r"ino\d+\.xattr", n))
+    fino = sorted(n for n in fld if re.fullmatch(r"ino\d+\.frag_index", n))
+    counts = {"x": 0, "f": 0, "i": 0}
+    if "xattr.tbl.ids" in fld and xino:
+        xat = fld["xattr.tbl.ids"][0][0] - 8
+        for count in (2 ** 28 + 1, 2 ** 29 + 1, 2 ** 31 + 1, 0xF0000001):
+            n, n32 = (count * 16 + 8191) // 8192, ((count * 16) % 2 ** 32 + 8191) // 8192
+            for idx in (512 * n32, 512 * n32 + 511, count - 1, 2 ** 28):
+                if idx >= count:
+                    continue
+                for sparse in (False, True):
+                    if sparse and (count > 2 ** 29 + 1 or idx not in (512 * n32, count - 1)):
+                        continue
+                    b = bytearray(img0)
+                    patch(b, "xattr.tbl.ids", count)
+                    for nm in xino:
+                        patch(b, nm, idx)
+                    if sparse:
+                        end = xat + 16 + 8 * n
+                        b = b[:xat + 24] + bytes(end - (xat + 24)) + bytes((-end) % 4096)
+                        patch(b, "super.bytes_used", end)
+                    out.append(("wd_xattr:%s" % ("sparse" if sparse else "compact"), bytes(b), ["xattr.tbl.ids=%#x" % count, "xattr index=%#x" % idx]))
+                    counts["x"] += 1
+    if "super.frag_count" in fld and fino:
+        for count in (2 ** 28 + 1, 2 ** 29 + 1, 0xF0000001):
+            for idx in (1, 2, count - 1):
+                b = bytearray(img0)
+                patch(b, "super.frag_count", count)
+                for nm in fino:
+                    patch(b, nm, idx)
+                out.append(("wd_frag:compact", bytes(b), ["super.frag_count=%#x" % count, "fragment index=%#x" % idx]))
+                counts["f"] += 1
+    for nm in sorted(n for n in fld if re.fullmatch(r"ino\d+\.sparse", n)):
+        base = nm.split(".")[0]
+        for cnt in (2 ** 32 + 1, 2 ** 30 + 1):
+            b = bytearray(img0)
+            patch(b, base + ".file_size", cnt * 4096)
+            patch(b, base + ".frag_index", 0xFFFFFFFF)
+            out.append(("wd_inode:compact", bytes(b), ["%s.file_size=%d*4096" % (base, cnt)]))
+            counts["i"] += 1
+    stats["width_images"] = counts
+    for k, floor in (("x", 8), ("f", 6), ("i", 2)):
+        if counts[k] < floor:
+            ctx.violation("sens:width-images:" + k, "generator self-test: the forge produced %d hostile-count images of class %r (floor %d): the fields they are built from are gone"
+                          % (counts[k], k, floor), {"kind": "self-test", "class": k}, found_input=False)
+    return out
+
+
 def tool_level(ctx, tools, api, harness, stats):
     rng = ctx.rng
     quick = ctx.quick()
@@ -1902,6 +1972,7 @@ def tool_level(ctx, tools, api, harness, stats):
         stats.setdefault("forge_compressors", []).append(COMP_NAMES[cid] + ("+meta" if cmeta else ""))
     tampered = codec_tamper_images(ctx, codec, comp_ids, stats)
     images += tampered
+    images += width_images(ctx, stats)
     codec.close()
     # inode mode fields whose file type bits contradict the inode type (set_mode must derive the type from the inode type:
     # a regular file presented as a symlink would have its block list printed as a C string, ...)
@@ -1964,6 +2035,10 @@ def tool_level(ctx, tools, api, harness, stats):
                 jobs = [j for j in jobs if j[0] in ("rdsquashfs -l", "rdsquashfs -d", "rdsquashfs -x", "rdsquashfs -s", "sqfs2tar", "api")]
             elif lab.startswith("ct_data"):
                 jobs = [j for j in jobs if j[0] in ("rdsquashfs -c", "rdsquashfs -c3", "rdsquashfs -u", "sqfs2tar", "sqfsdiff", "api")]
+            elif lab.startswith("wd_xattr"):
+                jobs = [j for j in jobs if j[0] in ("rdsquashfs -x", "rdsquashfs -x2", "rdsquashfs -uXCOT", "sqfs2tar", "api")]
+            elif lab.startswith(("wd_frag", "wd_inode")):
+                jobs = [j for j in jobs if j[0] in ("rdsquashfs -c", "rdsquashfs -u", "sqfs2tar", "sqfsdiff", "api")]
             if quick and idx >= nvalid and idx % 3 != 0:
                 # the option variants of unpack / sqfs2tar: every valid image, a third of the mutated ones
                 jobs = [j for j in jobs if j[0] not in ("rdsquashfs -uXCOT", "sqfs2tar -d", "sqfs2tar -dk", "sqfs2tar -r")]
@@ -2090,7 +2165,7 @@ def run(ctx):
         "nesting_limit_of_tree": stats.get("nesting_limit_of_tree"), "known_walk_differences": stats["known_walk"],
         "tool_images": stats["tool_images"], "tool_images_valid": stats["tool_images_valid"], "tool_runs": stats["tool_runs"],
         "tool_outcomes": stats.get("tool_hist"), "known_tool_failures": stats["known_tool"],
-        "generator_self_test": stats.get("sens"), "decompressor_classes": stats.get("codec_classes"), "hostile_block_images": stats.get("codec_tamper_images"),
+        "generator_self_test": stats.get("sens"), "decompressor_classes": stats.get("codec_classes"), "hostile_block_images": stats.get("codec_tamper_images"), "hostile_count_images": stats.get("width_images"),
         "decompressor_calls": stats.get("codec_calls", 0), "decompressors": stats.get("codecs"), "decompressor_outcomes": stats.get("codec_hist"),
         "decompressor_roundtrips": stats.get("codec_roundtrips", 0), "forge_compressors": stats.get("forge_compressors"),
         "api_calls_executed": stats.get("api_calls", 0), "api_errors_returned": stats.get("api_errors_returned", 0),
